@@ -23,6 +23,8 @@ var corpus = [][]string{
 	{`/ 6 3`, `/ 12 2 3`, `/ -6 3`, `/ 6 0`, `/ 0 6`, `/ 1`, `/ 0`, `num 12`, `num x`, `num (num 3)`, `num []`, `eq a a`, `eq a b`, `eq [a [b]] [a [b]]`, `eq [&a=b &c=d] [&c=d &a=b]`, `eq a (num 1)`, `eq 1 (num 1)`, `not-eq a b`, `not-eq a`, `eq`, `eq a`},
 	{`var x = 2`, `put $x`, `del x`, `var m = [&k=v &k2=v2]`, `del m[k2]`, `put $m`, `var l = [[&k=v &k2=v2]]`, `del l[0][k2]`, `put $l`, `del m[nokey]`, `put $m`, `del l[0]`, `del l[1][k]`},
 	{`var x = value`, `fn f { put $x }`, `del x`, `f`, `var y = 1; fail stop; del y`, `var z = 3`, `fail stop; del z`},
+	// ---- rationals
+	{`/ 1 2`, `/ 2 4`, `/ 6 3`, `/ 1 3 2`, `/ 2`, `/ -3 6`, `/ 3 -6`, `+ (/ 1 2) (/ 1 2)`, `+ (/ 1 2) (/ 1 3)`, `- (/ 1 2) 1`, `* (/ 2 3) (/ 3 4)`, `/ (/ 1 2) (/ 1 4)`, `- (/ 1 2)`, `< (/ 1 3) (/ 1 2) 1`, `== (/ 2 4) (/ 1 2)`, `!= (/ 1 2) 1`, `eq (/ 1 2) (/ 2 4)`, `put a(/ 1 2)`, `to-string (/ -1 2)`, `kind-of (/ 1 2)`, `num (/ 1 2)`, `% (/ 1 2) 2`, `put [a b][(/ 1 2)]`, `take (/ 1 2) [a]`, `order [(/ 1 2) (num 0) (/ -1 3) 1]`, `put [&(/ 1 2)=half][(/ 2 4)]`, `/ (/ 1 2) 0`, `echo (/ 3 2)`, `range (/ 1 2) 2`},
 	// ---- keys, order with comparators, str:
 	{`var m = [&b=1 &a=2 &c=3]`, `keys $m | order`, `keys $m | count`, `keys [&k=v]`, `keys [&]`, `keys [a b]`, `count [(keys [&k=v])]`, `keys $m | order &reverse`, `keys $m`},
 	{`order &less-than={|a b| < $a $b } [5 1 10]`, `order &less-than={|a b| > $a $b } [5 1 10]`, `order &key={|x| - $x } [5 1 10]`, `order &reverse &less-than={|a b| < $a $b } [5 1 10 1]`, `order &less-than={|a b| eq $a x } [l x o r x e x m]`, `order &less-than={|a b| put x } [b a]`, `order &less-than={|a b| fail cmp } [b a]`, `order &less-than={|a b| put $true $true } [b a]`, `order &less-than={|a b| fail never } [a]`, `var n = (num 0)`, `order &less-than={|a b| set n = (+ $n 1); < $a $b } [3 1 2 5 4]`, `put $n`, `order &key={|x| fail k } [a]`, `order &key={|x| put $x[1] } [[0 x] [1 a] [2 b]]`, `order &total [a]`},
